@@ -51,7 +51,6 @@ package texttable
 //@   loop#1 invariant -1 <= rangeindex && rangeindex < len(lines) && len(linesWidths) == nLines && fresh(linesWidths) && nLines >= len(lines)
 //@   loop#1 invariant forall i int :: {linesWidths[i]} 0 <= i && i <= rangeindex ==> linesWidths[i].S == lines[i] && linesWidths[i].W == (len(lines) == 1 ? dims.cellWidth : W(lines[i]))
 //@   loop#1 invariant forall i int :: {linesWidths[i]} rangeindex < i && i < nLines ==> linesWidths[i].S == "" && linesWidths[i].W == 0
-//@   loop#1 assigns elems(columnWidths)
 //@   loop#1 decreases len(lines) - rangeindex
 
 //@ -- lwLen(c): number of line measurements stored on the cell (0 when it has not been measured)
@@ -71,14 +70,12 @@ package texttable
 //@   ensures [missing-cell-blank] forall l int, c int :: {result[l][c]} 0 <= l && l < len(result) && len(cells) <= c && c < columnCount ==> result[l][c].S == "" && result[l][c].W == 0 @C04
 //@   loop#1 invariant 0 <= i && i <= max && max == min(len(cells), columnCount) && len(columns) == max && fresh(columns) && lineCount >= 1 && lineCount <= 1099511627776
 //@   loop#1 invariant forall c int :: {columns[c]} 0 <= c && c < i ==> len(columns[c]) == lwLen(&cells[c]) && len(columns[c]) <= lineCount && (lwLen(&cells[c]) > 0 ==> columns[c] === linesOf(&cells[c]))
-//@   loop#1 assigns elems(columnWidths)
 //@   loop#1 decreases max - i
 //@   loop#2 invariant 0 <= l && l <= lineCount && len(lines) == lineCount && fresh(lines) && max == min(len(cells), columnCount) && len(columns) == max && lineCount >= 1 && lineCount <= 1099511627776
 //@   loop#2 invariant forall c int :: {columns[c]} 0 <= c && c < max ==> len(columns[c]) == lwLen(&cells[c]) && len(columns[c]) <= lineCount && (lwLen(&cells[c]) > 0 ==> columns[c] === linesOf(&cells[c]))
 //@   loop#2 invariant forall k int :: {lines[k]} 0 <= k && k < l ==> len(lines[k]) == columnCount && fresh(lines[k])
 //@   loop#2 invariant forall k int, c int :: {lines[k][c]} 0 <= k && k < l && 0 <= c && c < max ==> (k < lwLen(&cells[c]) ? (lines[k][c].S == linesOf(&cells[c])[k].S && lines[k][c].W == linesOf(&cells[c])[k].W) : (lines[k][c].S == "" && lines[k][c].W == 0))
 //@   loop#2 invariant forall k int, c int :: {lines[k][c]} 0 <= k && k < l && max <= c && c < columnCount ==> lines[k][c].S == "" && lines[k][c].W == 0
-//@   loop#2 assigns elems(columnWidths)
 //@   loop#2 decreases lineCount - l
 //@   loop#3 invariant 0 <= c && c <= max && 0 <= l && l < lineCount && len(lines) == lineCount && fresh(lines) && max == min(len(cells), columnCount) && len(columns) == max && lineCount >= 1 && lineCount <= 1099511627776 && len(lines[l]) == columnCount && fresh(lines[l])
 //@   loop#3 invariant forall c int :: {columns[c]} 0 <= c && c < max ==> len(columns[c]) == lwLen(&cells[c]) && len(columns[c]) <= lineCount && (lwLen(&cells[c]) > 0 ==> columns[c] === linesOf(&cells[c]))
@@ -87,7 +84,6 @@ package texttable
 //@   loop#3 invariant forall k int, j int :: {lines[k][j]} 0 <= k && k < l && max <= j && j < columnCount ==> lines[k][j].S == "" && lines[k][j].W == 0
 //@   loop#3 invariant forall j int :: {lines[l][j]} 0 <= j && j < c ==> (l < lwLen(&cells[j]) ? (lines[l][j].S == linesOf(&cells[j])[l].S && lines[l][j].W == linesOf(&cells[j])[l].W) : (lines[l][j].S == "" && lines[l][j].W == 0))
 //@   loop#3 invariant forall j int :: {lines[l][j]} max <= j && j < columnCount ==> lines[l][j].S == "" && lines[l][j].W == 0
-//@   loop#3 assigns elems(columnWidths)
 //@   loop#3 decreases max - c
 
 //@ -- alignOf(t, j): the alignment stored on column handle j (0 = all-columns default); effAlign: own setting, else default
